@@ -50,6 +50,7 @@ SnapClass(r) ==
   ELSE IF r.foreign_get # "absent" THEN "typed-returns-foreign-object"
   ELSE IF \E j \in DOMAIN r.tev : r.tev[j][2] = "<nil>" THEN "typed-nil-event"
   ELSE IF r.tev # Own(r, r.uev) THEN "typed-events-differ"
+  ELSE IF r.ctev # Own(r, r.cuev) THEN "typed-clone-events-differ"
   ELSE IF ~r.tlisterr /\ (\E j \in DOMAIN r.tlist : r.tlist[j] = "<nil>") THEN "typed-nil-in-list"
   ELSE IF ~r.tlisterr /\ r.tlist # OwnKeys(r, r.ulist) THEN "typed-cache-differs"
   ELSE IF r.tmon = Own(r, r.umon) THEN ""
@@ -86,6 +87,7 @@ Next == /\ i <= Len(Recs)
                       [] r.k = "typed.req" -> ReqClass(r)
                       [] r.k = "typed.mon" -> MonClass(r)
                       [] r.k = "typed.overflow" -> OverflowClass(r)
+                      [] r.k = "typed.req2" -> (IF r.hits = 0 \/ r.listn # r.items THEN "typed-client-crossed" ELSE "")
                       [] r.k = "typed.reqcount" -> "typed-request-count"
                       [] r.k = "typed.end" -> (IF r.leak # 0 THEN "typed-leak" ELSE "")
                       [] r.k = "typed.error" -> "typed-error"
